@@ -40,6 +40,9 @@ import Inkayaku.Props.Translated.PgnTags
 import Inkayaku.Props.Translated.PgnMoves
 import Inkayaku.Props.Translated.PgnIter
 import Inkayaku.Props.Translated.PgnTotal
+import Inkayaku.Props.Translated.UciText
+import Inkayaku.Props.Translated.FindUci
+import Inkayaku.Props.Translated.Simple
 /-! Umbrella module: the equivalence theorems between the Rust functions translated on every run (`Gen/Rs/*.lean`, by
 `/verif/translator`) and the hand-written model live in `Props/Translated/*.lean`, one file per Rust source / topic.
 The first ten targets are listed in `Props/Translated/Basic.lean`; round 2 added:
@@ -110,5 +113,15 @@ state, the model program `p` ends in the corresponding state with a related resu
 | `read_braced_annotation`, `read_semicolon_annotation`, `read_move`, `read_moves`, `read_pgn`, `Iterator::next` | `read_move` …, `next` | `readMove`, `readMoves`, `readPgn`, `next` | `rs_read_move_sim`, `rs_read_moves_sim`, `rs_read_pgn_sim`, `rs_pgn_next_eq` (`PgnMoves.lean`) |
 | iteration of `next` over `with_chunk_size(reader, chunk)`       | `with_chunk_size`, `rsItems` (defined in `PgnIter.lean`) | `readAllBuffered`, `readAll`, `C17.chunk_independent` | `rs_with_chunk_size_eq`, `rs_items_eq`, `rs_pgn_chunk_independent` (`PgnIter.lean`) |
 | NO PANIC / fuel adequacy of every method (measure: length of the remaining stream, via `C17.reader_bytes` and the decrease lemmas of `C17.fuel_adequate`) | all of the above | | `TotalF`, `rs_*_total`, `rs_pgn_next_total`, `rs_items_total`, `rs_pgn_reader_correct` (total form of C17 on the regenerated reader) (`PgnTotal.lean`) |
+
+ROUND 6: UCI TEXT LOOKUP (property C13) AND THE STATIC EVALUATION (property C11).  Generated modules `UciText` (`piece_to_string`,
+`Move::to_uci_string`; preamble `strTrim` = `str::trim`), `FindUci` (`MoveFromUciError`, `Bitboard::find_uci` with its `.find(..)` as
+`find_uci.find_1`, `make_uci`).  Opaque: the `Square` / `Piece` tables (`SquareTables`, `PieceLetters`).
+
+| Rust                                                            | generated `Inkayaku.Rs.…` (module)                 | model                              | theorems (file) |
+|-----------------------------------------------------------------|----------------------------------------------------|------------------------------------|-----------------|
+| `piece_to_string` (lib.rs), `Move::to_uci_string`, `str::trim`  | `piece_to_string`, `Move.to_uci_string`, `strTrim` (`UciText`) | `pieceString`, `Move.uci`, `Util.rustTrim` | `rs_str_trim_string`, `rs_piece_to_string`, `rs_to_uci_string_eq` (`UciText.lean`) |
+| `Bitboard::{find_uci, make_uci}`, `enum MoveFromUciError`       | `Bitboard.find_uci`, `.find_uci.find_1`, `.make_uci` (`FindUci`) | `San.findUci`, `San.makeUci` | `rs_to_uci_string_generated`, `rs_find_loop`, `rs_find_uci_vis`, `rs_find_uci_eq`, `findUci_vis`, `rs_make_uci_vis`, `rs_make_uci_eq`, `makeUci_error_vis` (`FindUci.lean`) |
+| `SimpleHeuristic::{piece_value, game_stage, piece_square_sum, piece_square_sum_for_player, piece_square_value}`, `Heuristic for SimpleHeuristic::evaluate_ongoing`, `QUEEN_VALUE` …, `MID`, `LATE` (heuristic/simple.rs; `WHITE_TABLES` / `BLACK_TABLES` = opaque list parameters) | `SimpleHeuristic.piece_value` …, `.piece_square_sum.while_1`, `.evaluate_ongoing` (`Simple`) | `Eval.pieceValue`, `gameStage`, `squareSum`, `sideSquareSum`, `pieceSquareValue`, `evaluateOngoing` | `gen_tables_ok`, `rs_piece_value_eq`, `rs_game_stage_eq`, `rs_square_loop`, `rs_piece_square_sum_eq`, `rs_piece_square_sum_for_player_eq`, `rs_piece_square_value_eq`, `rs_evaluate_ongoing_eq`, `rs_evaluate_full_eq` (no opaque result left in `Heuristic::evaluate`) (`Simple.lean`) |
 
 Mutation sanity check of all of these: `/verif/translator/mutation_check.sh`. -/
